@@ -30,23 +30,22 @@ Section Theory.
     if nest then Ok c else node_ctx loader cf c ap m.
 
   (* ---- the walk, in a form convenient for proofs ---- *)
-  Fixpoint items_of (W : path -> json -> res (list occ)) (pre : path) (l : list json) (i : N)
-    : res (list occ) :=
+  Fixpoint items_of (W : json -> res (list occ)) (l : list json) (i : N) : res (list occ) :=
     match l with
     | [] => Ok []
     | x :: t =>
-        a <- W (pre ++ [PI i]) x ;;
-        b <- items_of W pre t (N.succ i) ;;
-        Ok (a ++ b)
+        a <- W x ;;
+        b <- items_of W t (N.succ i) ;;
+        Ok (tag (PI i) a ++ b)
     end.
 
-  Definition member_walk (cn : ctx) (ap : string) (sw : bool) (pre : path) (k : string) (x : json)
+  Definition member_walk (cn : ctx) (ap : string) (sw : bool) (k : string) (x : json)
     : res (list occ) :=
     match action_of cn ap k x with
     | ASkip => Ok []
-    | AUndef => Ok [(pre ++ [PK k], sw)]
-    | AWalk c' ap' s' => walk' c' ap' false (sw || s') (pre ++ [PK k]) x
-    | ANest => walk' cn ap true sw (pre ++ [PK k]) x
+    | AUndef => Ok [([PK k], sw)]
+    | AWalk c' ap' s' => r <- walk' c' ap' false (sw || s') x ;; Ok (tag (PK k) r)
+    | ANest => r <- walk' cn ap true sw x ;; Ok (tag (PK k) r)
     | AFail r => cast_fail r
     end.
 
@@ -60,17 +59,17 @@ Section Theory.
         Ok (a ++ b)
     end.
 
-  Lemma walk_arr c ap nest sw pre l :
-    walk' c ap nest sw pre (JArr l) = items_of (fun p x => walk' c ap nest sw p x) pre l 0%N.
+  Lemma walk_arr c ap nest sw l :
+    walk' c ap nest sw (JArr l) = items_of (walk' c ap nest sw) l 0%N.
   Proof.
     cbn [walk]. generalize 0%N. induction l as [|x t IH]; intro i; cbn; [reflexivity|].
-    destruct (walk' c ap nest sw (pre ++ [PI i]) x); cbn; try reflexivity.
+    destruct (walk' c ap nest sw x); cbn; try reflexivity.
     rewrite IH. reflexivity.
   Qed.
 
-  Lemma walk_obj c ap nest sw pre m :
-    walk' c ap nest sw pre (JObj m) =
-    (cn <- ctx_here c ap nest m ;; members_of (member_walk cn ap sw pre) m).
+  Lemma walk_obj c ap nest sw m :
+    walk' c ap nest sw (JObj m) =
+    (cn <- ctx_here c ap nest m ;; members_of (member_walk cn ap sw) m).
   Proof.
     cbn [walk]. unfold ctx_here.
     destruct (if nest then Ok c else node_ctx loader cf c ap m) as [cn| | |]; cbn [bind]; try reflexivity.
@@ -79,21 +78,25 @@ Section Theory.
     destruct (action_of cn ap k x); cbn; rewrite ?IH; reflexivity.
   Qed.
 
-  Lemma items_nth W pre l : forall i0 os j x,
-    items_of W pre l i0 = Ok os -> nth_error l j = Some x ->
-    exists a, W (pre ++ [PI (i0 + N.of_nat j)%N]) x = Ok a /\ incl a os.
+  Lemma in_tag e o os : In o os -> In (e :: fst o, snd o) (tag e os).
+  Proof. intro H. unfold tag. apply in_map_iff. exists o. auto. Qed.
+  Lemma in_tag_inv e q os : In q (tag e os) -> exists o, In o os /\ q = (e :: fst o, snd o).
+  Proof. unfold tag. intro H. apply in_map_iff in H. destruct H as [o [E H]]. exists o. auto. Qed.
+
+  Lemma items_nth W l : forall i0 os j x,
+    items_of W l i0 = Ok os -> nth_error l j = Some x ->
+    exists a, W x = Ok a /\ incl (tag (PI (i0 + N.of_nat j)%N) a) os.
   Proof.
     induction l as [|y t IH]; intros i0 os j x H Hn.
     - destruct j; discriminate.
     - cbn in H. apply bind_ok in H. destruct H as [a [Ha H]].
       apply bind_ok in H. destruct H as [b [Hb H]]. inversion H; subst os.
       destruct j as [|j]; cbn in Hn.
-      + inversion Hn; subst y. exists a. split.
-        * replace (i0 + N.of_nat 0)%N with i0 by lia. exact Ha.
-        * apply incl_appl, incl_refl.
-      + destruct (IH _ _ _ _ Hb Hn) as [a' [Ha' Hi]]. exists a'. split.
-        * replace (i0 + N.of_nat (S j))%N with (N.succ i0 + N.of_nat j)%N by lia. exact Ha'.
-        * apply incl_appr. exact Hi.
+      + inversion Hn; subst y. exists a. split; [exact Ha|].
+        replace (i0 + N.of_nat 0)%N with i0 by lia. apply incl_appl, incl_refl.
+      + destruct (IH _ _ _ _ Hb Hn) as [a' [Ha' Hi]]. exists a'. split; [exact Ha'|].
+        replace (i0 + N.of_nat (S j))%N with (N.succ i0 + N.of_nat j)%N by lia.
+        apply incl_appr. exact Hi.
   Qed.
 
   Lemma members_in F ms : forall os k x,
@@ -109,44 +112,44 @@ Section Theory.
   Qed.
 
   (* ---- where members occur ---- *)
-  (* [occurs c ap nest sw pre v p cn k s]: expanding value [v] (active context [c],
-     active property [ap], at path [pre]) meets a member with key [k] at path [p];
+  (* [occurs under c ap nest sw v p cn k s]: expanding value [v] (active context [c],
+     active property [ap]) meets a member with key [k] at path [p] (relative to [v]);
      [cn] is the active context its key is expanded in; [s] tells whether it lies
      inside the value of an @list/@set/@default keyword member (where json-gold
-     ignores errors).  [under]: may the position lie below an undefined member
-     (which expansion never visits)? *)
+     ignores errors; [sw] is that flag for [v] itself).  [under]: may the position
+     lie below an undefined member (which expansion never visits)? *)
   Inductive occurs (under : bool)
-    : ctx -> string -> bool -> bool -> path -> json -> path -> ctx -> string -> bool -> Prop :=
-  | occ_item c ap nest sw pre l i x p cn k s :
+    : ctx -> string -> bool -> bool -> json -> path -> ctx -> string -> bool -> Prop :=
+  | occ_item c ap nest sw l i x p cn k s :
       nth_error l i = Some x ->
-      occurs under c ap nest sw (pre ++ [PI (N.of_nat i)]) x p cn k s ->
-      occurs under c ap nest sw pre (JArr l) p cn k s
-  | occ_here c ap nest sw pre m cn k x :
+      occurs under c ap nest sw x p cn k s ->
+      occurs under c ap nest sw (JArr l) (PI (N.of_nat i) :: p) cn k s
+  | occ_here c ap nest sw m cn k x :
       ctx_here c ap nest m = Ok cn -> In (k, x) m -> k <> "@context" ->
-      occurs under c ap nest sw pre (JObj m) (pre ++ [PK k]) cn k sw
-  | occ_walk c ap nest sw pre m cn k x c' ap' s' p cn' k' s :
+      occurs under c ap nest sw (JObj m) [PK k] cn k sw
+  | occ_walk c ap nest sw m cn k x c' ap' s' p cn' k' s :
       ctx_here c ap nest m = Ok cn -> In (k, x) m ->
       action_of cn ap k x = AWalk c' ap' s' ->
-      occurs under c' ap' false (sw || s') (pre ++ [PK k]) x p cn' k' s ->
-      occurs under c ap nest sw pre (JObj m) p cn' k' s
-  | occ_nest c ap nest sw pre m cn k x p cn' k' s :
+      occurs under c' ap' false (sw || s') x p cn' k' s ->
+      occurs under c ap nest sw (JObj m) (PK k :: p) cn' k' s
+  | occ_nest c ap nest sw m cn k x p cn' k' s :
       ctx_here c ap nest m = Ok cn -> In (k, x) m ->
       action_of cn ap k x = ANest ->
-      occurs under cn ap true sw (pre ++ [PK k]) x p cn' k' s ->
-      occurs under c ap nest sw pre (JObj m) p cn' k' s
-  | occ_under c ap nest sw pre m cn k x p cn' k' s :
+      occurs under cn ap true sw x p cn' k' s ->
+      occurs under c ap nest sw (JObj m) (PK k :: p) cn' k' s
+  | occ_under c ap nest sw m cn k x p cn' k' s :
       under = true ->
       ctx_here c ap nest m = Ok cn -> In (k, x) m ->
       action_of cn ap k x = AUndef ->
-      occurs under cn k false sw (pre ++ [PK k]) x p cn' k' s ->
-      occurs under c ap nest sw pre (JObj m) p cn' k' s.
+      occurs under cn k false sw x p cn' k' s ->
+      occurs under c ap nest sw (JObj m) (PK k :: p) cn' k' s.
 
   (* members expansion reaches / members anywhere in the document *)
   Definition reach := occurs false.
   Definition anywhere := occurs true.
 
-  Lemma reach_anywhere c ap nest sw pre v p cn k s :
-    reach c ap nest sw pre v p cn k s -> anywhere c ap nest sw pre v p cn k s.
+  Lemma reach_anywhere c ap nest sw v p cn k s :
+    reach c ap nest sw v p cn k s -> anywhere c ap nest sw v p cn k s.
   Proof.
     unfold reach, anywhere. induction 1.
     - eapply occ_item; eauto.
@@ -157,8 +160,8 @@ Section Theory.
   Qed.
 
   (* the swallow flag only grows on the way down *)
-  Lemma occurs_flag under c ap nest sw pre v p cn k s :
-    occurs under c ap nest sw pre v p cn k s -> s = false -> sw = false.
+  Lemma occurs_flag under c ap nest sw v p cn k s :
+    occurs under c ap nest sw v p cn k s -> s = false -> sw = false.
   Proof.
     induction 1; intro Hs; auto.
     specialize (IHoccurs Hs). apply orb_false_iff in IHoccurs. tauto.
@@ -177,14 +180,15 @@ Section Theory.
 
   (* completeness of the walk: an undefined member that expansion reaches is reported,
      with its path and its swallow flag *)
-  Lemma walk_complete c ap nest sw pre v p cn k s :
-    reach c ap nest sw pre v p cn k s -> key_defined cn k = false ->
-    forall os, walk' c ap nest sw pre v = Ok os -> In (p, s) os.
+  Lemma walk_complete c ap nest sw v p cn k s :
+    reach c ap nest sw v p cn k s -> key_defined cn k = false ->
+    forall os, walk' c ap nest sw v = Ok os -> In (p, s) os.
   Proof.
     unfold reach. induction 1; intros Hd os Hw.
     - rewrite walk_arr in Hw.
-      destruct (items_nth _ _ _ _ _ _ _ Hw H) as [a [Ha Hi]].
-      rewrite N.add_0_l in Ha. apply Hi. apply IHoccurs; assumption.
+      destruct (items_nth _ _ _ _ _ _ Hw H) as [a [Ha Hi]].
+      rewrite N.add_0_l in Hi. apply Hi.
+      apply (in_tag (PI (N.of_nat i)) (p, s)). apply IHoccurs; assumption.
     - rewrite walk_obj in Hw. rewrite H in Hw. cbn [bind] in Hw.
       destruct (members_in _ _ _ _ _ Hw H0) as [a [Ha Hi]].
       unfold member_walk in Ha.
@@ -193,52 +197,65 @@ Section Theory.
       + specialize (Hr (list occ)). rewrite Ha in Hr. discriminate.
     - rewrite walk_obj in Hw. rewrite H in Hw. cbn [bind] in Hw.
       destruct (members_in _ _ _ _ _ Hw H0) as [a [Ha Hi]].
-      unfold member_walk in Ha. rewrite H1 in Ha. apply Hi. apply IHoccurs; assumption.
+      unfold member_walk in Ha. rewrite H1 in Ha.
+      apply bind_ok in Ha. destruct Ha as [r [Hr Ha]]. inversion Ha; subst a.
+      apply Hi. apply (in_tag (PK k) (p, s)). apply IHoccurs; assumption.
     - rewrite walk_obj in Hw. rewrite H in Hw. cbn [bind] in Hw.
       destruct (members_in _ _ _ _ _ Hw H0) as [a [Ha Hi]].
-      unfold member_walk in Ha. rewrite H1 in Ha. apply Hi. apply IHoccurs; assumption.
+      unfold member_walk in Ha. rewrite H1 in Ha.
+      apply bind_ok in Ha. destruct Ha as [r [Hr Ha]]. inversion Ha; subst a.
+      apply Hi. apply (in_tag (PK k) (p, s)). apply IHoccurs; assumption.
     - discriminate.
+  Qed.
+
+  Lemma exists_unswallowed_tag e r :
+    existsb unswallowed r = true -> existsb unswallowed (tag e r) = true.
+  Proof.
+    intro H. apply existsb_exists in H. destruct H as [o [Ho Hu]].
+    apply existsb_exists. exists (e :: fst o, snd o). split; [apply in_tag; exact Ho|exact Hu].
+  Qed.
+  Lemma exists_unswallowed_incl a os :
+    incl a os -> existsb unswallowed a = true -> existsb unswallowed os = true.
+  Proof.
+    intros Hi H. apply existsb_exists in H. destruct H as [o [Ho Hu]].
+    apply existsb_exists. exists o. split; [apply Hi; exact Ho|exact Hu].
   Qed.
 
   (* an undefined member ANYWHERE outside @list/@set/@default values makes the walk
      report some unswallowed occurrence (itself, or the first undefined member
      above it) *)
-  Lemma walk_rejects c ap nest sw pre v p cn k s :
-    anywhere c ap nest sw pre v p cn k s -> key_defined cn k = false -> s = false ->
-    forall os, walk' c ap nest sw pre v = Ok os -> existsb unswallowed os = true.
+  Lemma walk_rejects c ap nest sw v p cn k s :
+    anywhere c ap nest sw v p cn k s -> key_defined cn k = false -> s = false ->
+    forall os, walk' c ap nest sw v = Ok os -> existsb unswallowed os = true.
   Proof.
     unfold anywhere. induction 1; intros Hd Hs os Hw.
     - rewrite walk_arr in Hw.
-      destruct (items_nth _ _ _ _ _ _ _ Hw H) as [a [Ha Hi]].
-      rewrite N.add_0_l in Ha. specialize (IHoccurs Hd Hs a Ha).
-      apply existsb_exists in IHoccurs. destruct IHoccurs as [o [Ho Hu]].
-      apply existsb_exists. exists o. split; [apply Hi; exact Ho|exact Hu].
+      destruct (items_nth _ _ _ _ _ _ Hw H) as [a [Ha Hi]].
+      eapply exists_unswallowed_incl; [exact Hi|]. apply exists_unswallowed_tag. eauto.
     - rewrite walk_obj in Hw. rewrite H in Hw. cbn [bind] in Hw.
       destruct (members_in _ _ _ _ _ Hw H0) as [a [Ha Hi]].
       unfold member_walk in Ha.
       destruct (action_of_undefined cn ap k x H1 Hd) as [E|[r [E Hr]]]; rewrite E in Ha.
-      + inversion Ha; subst a. apply existsb_exists. exists (pre ++ [PK k], sw). split.
+      + inversion Ha; subst a. apply existsb_exists. exists ([PK k], sw). split.
         * apply Hi. left. reflexivity.
         * unfold unswallowed. cbn. rewrite Hs. reflexivity.
       + specialize (Hr (list occ)). rewrite Ha in Hr. discriminate.
     - rewrite walk_obj in Hw. rewrite H in Hw. cbn [bind] in Hw.
       destruct (members_in _ _ _ _ _ Hw H0) as [a [Ha Hi]].
       unfold member_walk in Ha. rewrite H1 in Ha.
-      specialize (IHoccurs Hd Hs a Ha).
-      apply existsb_exists in IHoccurs. destruct IHoccurs as [o [Ho Hu]].
-      apply existsb_exists. exists o. split; [apply Hi; exact Ho|exact Hu].
+      apply bind_ok in Ha. destruct Ha as [r [Hr Ha]]. inversion Ha; subst a.
+      eapply exists_unswallowed_incl; [exact Hi|]. apply exists_unswallowed_tag. eauto.
     - rewrite walk_obj in Hw. rewrite H in Hw. cbn [bind] in Hw.
       destruct (members_in _ _ _ _ _ Hw H0) as [a [Ha Hi]].
       unfold member_walk in Ha. rewrite H1 in Ha.
-      specialize (IHoccurs Hd Hs a Ha).
-      apply existsb_exists in IHoccurs. destruct IHoccurs as [o [Ho Hu]].
-      apply existsb_exists. exists o. split; [apply Hi; exact Ho|exact Hu].
+      apply bind_ok in Ha. destruct Ha as [r [Hr Ha]]. inversion Ha; subst a.
+      eapply exists_unswallowed_incl; [exact Hi|]. apply exists_unswallowed_tag. eauto.
     - (* below an undefined member: that member itself is reported *)
       rewrite walk_obj in Hw. rewrite H0 in Hw. cbn [bind] in Hw.
       destruct (members_in _ _ _ _ _ Hw H1) as [a [Ha Hi]].
       unfold member_walk in Ha. rewrite H2 in Ha. inversion Ha; subst a.
-      pose proof (occurs_flag _ _ _ _ _ _ _ _ _ _ _ H3 Hs) as Hsw.
-      apply existsb_exists. exists (pre ++ [PK k], sw). split.
+      pose proof (occurs_flag _ _ _ _ _ _ _ _ _ _ H3 Hs) as Hsw.
+      apply existsb_exists. exists ([PK k], sw). split.
       + apply Hi. left. reflexivity.
       + unfold unswallowed. cbn. rewrite Hsw. reflexivity.
   Qed.
@@ -258,20 +275,20 @@ Section Theory.
         exists k, x, a'. split; [right; exact H1|]. split; assumption.
   Qed.
 
-  Lemma items_of_in W pre l : forall i0 os o,
-    items_of W pre l i0 = Ok os -> In o os ->
-    exists j x a, nth_error l j = Some x /\ W (pre ++ [PI (i0 + N.of_nat j)%N]) x = Ok a /\ In o a.
+  Lemma items_of_in W l : forall i0 os o,
+    items_of W l i0 = Ok os -> In o os ->
+    exists j x a, nth_error l j = Some x /\ W x = Ok a /\ In o (tag (PI (i0 + N.of_nat j)%N) a).
   Proof.
     induction l as [|y t IH]; intros i0 os o H Hin.
     - cbn in H. inversion H; subst. contradiction.
     - cbn in H. apply bind_ok in H. destruct H as [a [Ha H]].
       apply bind_ok in H. destruct H as [b [Hb H]]. inversion H; subst os.
       apply in_app_or in Hin. destruct Hin as [Hin|Hin].
-      + exists 0, y, a. split; [reflexivity|]. split; [|assumption].
-        replace (i0 + N.of_nat 0)%N with i0 by lia. exact Ha.
+      + exists 0, y, a. split; [reflexivity|]. split; [exact Ha|].
+        replace (i0 + N.of_nat 0)%N with i0 by lia. exact Hin.
       + destruct (IH _ _ _ Hb Hin) as [j [x [a' [H1 [H2 H3]]]]].
-        exists (S j), x, a'. split; [exact H1|]. split; [|assumption].
-        replace (i0 + N.of_nat (S j))%N with (N.succ i0 + N.of_nat j)%N by lia. exact H2.
+        exists (S j), x, a'. split; [exact H1|]. split; [exact H2|].
+        replace (i0 + N.of_nat (S j))%N with (N.succ i0 + N.of_nat j)%N by lia. exact H3.
   Qed.
 
   Lemma action_undef_inv cn ap k x :
@@ -289,7 +306,7 @@ Section Theory.
         repeat match goal with |- context [if ?b then _ else _] => destruct b end; discriminate.
   Qed.
 
-  (* a well-founded measure for the soundness induction *)
+  (* a well-founded measure for inductions over documents *)
   Fixpoint jsize (v : json) : nat :=
     match v with
     | JArr l => S (fold_right (fun x n => jsize x + n) 0 l)
@@ -313,18 +330,19 @@ Section Theory.
   Qed.
 
   Lemma walk_sound_n : forall n v, jsize v <= n ->
-    forall c ap nest sw pre os p s,
-    walk' c ap nest sw pre v = Ok os -> In (p, s) os ->
-    exists cn k, reach c ap nest sw pre v p cn k s /\ key_defined cn k = false.
+    forall c ap nest sw os p s,
+    walk' c ap nest sw v = Ok os -> In (p, s) os ->
+    exists cn k, reach c ap nest sw v p cn k s /\ key_defined cn k = false.
   Proof.
-    induction n as [|n IH]; intros v Hn c ap nest sw pre os p s Hw Hin.
+    induction n as [|n IH]; intros v Hn c ap nest sw os p s Hw Hin.
     - destruct v; cbn in Hn; lia.
     - destruct v as [| | | |l|m]; try (cbn in Hw; inversion Hw; subst; contradiction).
       + rewrite walk_arr in Hw.
-        destruct (items_of_in _ _ _ _ _ _ Hw Hin) as [j [x [a [Hj [Ha Hia]]]]].
-        rewrite N.add_0_l in Ha.
+        destruct (items_of_in _ _ _ _ _ Hw Hin) as [j [x [a [Hj [Ha Hia]]]]].
+        rewrite N.add_0_l in Hia.
+        apply in_tag_inv in Hia. destruct Hia as [[p0 s0] [Ho E]]. cbn in E. inversion E; subst p s.
         assert (Hx : jsize x <= n) by (pose proof (jsize_nth _ _ _ Hj); cbn in Hn; lia).
-        destruct (IH x Hx _ _ _ _ _ _ _ _ Ha Hia) as [cn [k [Hr Hd]]].
+        destruct (IH x Hx _ _ _ _ _ _ _ Ha Ho) as [cn [k [Hr Hd]]].
         exists cn, k. split; [|exact Hd]. eapply occ_item; eauto.
       + rewrite walk_obj in Hw. apply bind_ok in Hw. destruct Hw as [cn [Hc Hw]].
         destruct (members_of_in _ _ _ _ Hw Hin) as [k [x [a [Hk [Ha Hia]]]]].
@@ -335,21 +353,322 @@ Section Theory.
         * inversion Ha; subst a. destruct Hia as [Hia|[]]. inversion Hia; subst p s.
           destruct (action_undef_inv _ _ _ _ E) as [Hk1 Hk2].
           exists cn, k. split; [|exact Hk2]. eapply occ_here; eauto.
-        * destruct (IH x Hx _ _ _ _ _ _ _ _ Ha Hia) as [cn' [k' [Hr Hd]]].
+        * apply bind_ok in Ha. destruct Ha as [r [Hr Ha]]. inversion Ha; subst a.
+          apply in_tag_inv in Hia. destruct Hia as [[p0 s0] [Ho E']]. cbn in E'. inversion E'; subst p s.
+          destruct (IH x Hx _ _ _ _ _ _ _ Hr Ho) as [cn' [k' [Hr' Hd]]].
           exists cn', k'. split; [|exact Hd]. eapply occ_walk; eauto.
-        * destruct (IH x Hx _ _ _ _ _ _ _ _ Ha Hia) as [cn' [k' [Hr Hd]]].
+        * apply bind_ok in Ha. destruct Ha as [r [Hr Ha]]. inversion Ha; subst a.
+          apply in_tag_inv in Hia. destruct Hia as [[p0 s0] [Ho E']]. cbn in E'. inversion E'; subst p s.
+          destruct (IH x Hx _ _ _ _ _ _ _ Hr Ho) as [cn' [k' [Hr' Hd]]].
           exists cn', k'. split; [|exact Hd]. eapply occ_nest; eauto.
         * destruct r; cbn in Ha; discriminate.
   Qed.
 
-  Lemma walk_sound c ap nest sw pre v os p s :
-    walk' c ap nest sw pre v = Ok os -> In (p, s) os ->
-    exists cn k, reach c ap nest sw pre v p cn k s /\ key_defined cn k = false.
+  Lemma walk_sound c ap nest sw v os p s :
+    walk' c ap nest sw v = Ok os -> In (p, s) os ->
+    exists cn k, reach c ap nest sw v p cn k s /\ key_defined cn k = false.
   Proof. intros. eapply walk_sound_n; eauto. Qed.
+
+  (* ---- the stripped document = structural deletion of the reported members ---- *)
+  Definition pelem_eqb (a b : pelem) : bool :=
+    match a, b with
+    | PK x, PK y => String.eqb x y
+    | PI x, PI y => N.eqb x y
+    | _, _ => false
+    end.
+  Lemma pelem_eqb_refl a : pelem_eqb a a = true.
+  Proof. destruct a; cbn; [apply String.eqb_refl|apply N.eqb_refl]. Qed.
+  Lemma pelem_eqb_eq a b : pelem_eqb a b = true -> a = b.
+  Proof.
+    destruct a, b; cbn; try discriminate; intro H.
+    - apply String.eqb_eq in H. subst. reflexivity.
+    - apply N.eqb_eq in H. subst. reflexivity.
+  Qed.
+  Lemma pelem_eqb_neq a b : a <> b -> pelem_eqb a b = false.
+  Proof. intro H. destruct (pelem_eqb a b) eqn:E; [apply pelem_eqb_eq in E; contradiction|reflexivity]. Qed.
+
+  Definition pcons (e : pelem) (p : path) : path := e :: p.
+  Definition paths_of (os : list occ) : list path := map fst os.
+  Lemma paths_of_app a b : paths_of (a ++ b) = paths_of a ++ paths_of b.
+  Proof. apply map_app. Qed.
+
+  (* the paths of [P] that go through step [e], with that step removed *)
+  Definition sub (e : pelem) (P : list path) : list path :=
+    flat_map (fun p => match p with h :: t => if pelem_eqb h e then [t] else [] | [] => [] end) P.
+  (* is the one-step path [e] in [P]? *)
+  Definition here (e : pelem) (P : list path) : bool :=
+    existsb (fun p => match p with [h] => pelem_eqb h e | _ => false end) P.
+
+  Fixpoint rm_items (R : list path -> json -> json) (P : list path) (l : list json) (i : N) : list json :=
+    match l with
+    | [] => []
+    | x :: t => R (sub (PI i) P) x :: rm_items R P t (N.succ i)
+    end.
+  Fixpoint rm_ms (R : list path -> json -> json) (P : list path) (ms : list (string * json))
+    : list (string * json) :=
+    match ms with
+    | [] => []
+    | (k, x) :: t =>
+        if here (PK k) P then rm_ms R P t else (k, R (sub (PK k) P) x) :: rm_ms R P t
+    end.
+
+  (* context-free: delete exactly the object members named by the paths in [P] *)
+  Fixpoint remove_members (P : list path) (v : json) {struct v} : json :=
+    match v with
+    | JArr l =>
+        JArr ((fix go (l : list json) (i : N) {struct l} : list json :=
+                 match l with
+                 | [] => []
+                 | x :: t => remove_members (sub (PI i) P) x :: go t (N.succ i)
+                 end) l 0%N)
+    | JObj m =>
+        JObj ((fix go (ms : list (string * json)) {struct ms} : list (string * json) :=
+                 match ms with
+                 | [] => []
+                 | (k, x) :: t =>
+                     if here (PK k) P then go t else (k, remove_members (sub (PK k) P) x) :: go t
+                 end) m)
+    | _ => v
+    end.
+
+  Lemma remove_arr P l : remove_members P (JArr l) = JArr (rm_items remove_members P l 0%N).
+  Proof.
+    cbn [remove_members]. f_equal. generalize 0%N.
+    induction l as [|x t IH]; intro i; cbn; [reflexivity|]. rewrite IH. reflexivity.
+  Qed.
+  Lemma remove_obj P m : remove_members P (JObj m) = JObj (rm_ms remove_members P m).
+  Proof.
+    cbn [remove_members]. f_equal.
+    induction m as [|[k x] t IH]; cbn; [reflexivity|]. rewrite IH. reflexivity.
+  Qed.
+
+  (* strip, in the same style *)
+  Definition member_strip (cn : ctx) (ap k : string) (x : json) : option (string * json) :=
+    match action_of cn ap k x with
+    | AUndef => None
+    | AWalk c' ap' _ => Some (k, strip loader cf c' ap' false x)
+    | ANest => Some (k, strip loader cf cn ap true x)
+    | ASkip | AFail _ => Some (k, x)
+    end.
+  Fixpoint strip_ms (cn : ctx) (ap : string) (ms : list (string * json)) : list (string * json) :=
+    match ms with
+    | [] => []
+    | (k, x) :: t =>
+        match member_strip cn ap k x with
+        | None => strip_ms cn ap t
+        | Some kv => kv :: strip_ms cn ap t
+        end
+    end.
+  Lemma strip_arr c ap nest l :
+    strip loader cf c ap nest (JArr l) = JArr (map (strip loader cf c ap nest) l).
+  Proof. reflexivity. Qed.
+  Lemma strip_obj c ap nest m :
+    strip loader cf c ap nest (JObj m) =
+    match ctx_here c ap nest m with Ok cn => JObj (strip_ms cn ap m) | _ => JObj m end.
+  Proof.
+    cbn [strip]. unfold ctx_here.
+    destruct (if nest then Ok c else node_ctx loader cf c ap m) as [cn| | |]; try reflexivity.
+    f_equal. induction m as [|[k x] t IH]; cbn; [reflexivity|].
+    unfold member_strip. destruct (action_of cn ap k x); rewrite IH; reflexivity.
+  Qed.
+
+  (* algebra of sub / here *)
+  Lemma sub_app e P1 P2 : sub e (P1 ++ P2) = sub e P1 ++ sub e P2.
+  Proof. unfold sub. apply flat_map_app. Qed.
+  Lemma here_app e P1 P2 : here e (P1 ++ P2) = here e P1 || here e P2.
+  Proof. unfold here. apply existsb_app. Qed.
+  Lemma paths_tag e a : paths_of (tag e a) = map (pcons e) (paths_of a).
+  Proof. unfold paths_of, tag. rewrite !map_map. reflexivity. Qed.
+  Lemma sub_cons_same e Q : sub e (map (pcons e) Q) = Q.
+  Proof.
+    unfold sub. induction Q as [|q t IH]; cbn; [reflexivity|].
+    rewrite pelem_eqb_refl. cbn. rewrite IH. reflexivity.
+  Qed.
+  Lemma sub_cons_other e e' Q : e' <> e -> sub e (map (pcons e') Q) = [].
+  Proof.
+    intro H. unfold sub. induction Q as [|q t IH]; cbn; [reflexivity|].
+    rewrite (pelem_eqb_neq _ _ H). cbn. exact IH.
+  Qed.
+  Lemma here_cons_other e e' Q : e' <> e -> here e (map (pcons e') Q) = false.
+  Proof.
+    intro H. unfold here. induction Q as [|q t IH]; cbn; [reflexivity|].
+    rewrite IH. destruct q; [|reflexivity]. rewrite (pelem_eqb_neq _ _ H). reflexivity.
+  Qed.
+  Lemma here_cons_nonempty e e' Q : (forall q, In q Q -> q <> []) -> here e (map (pcons e') Q) = false.
+  Proof.
+    intro H. unfold here. induction Q as [|q t IH]; cbn; [reflexivity|].
+    rewrite IH by (intros q' Hq'; apply H; right; exact Hq').
+    destruct q; [exfalso; apply (H []); [left; reflexivity|reflexivity]|reflexivity].
+  Qed.
+
+  Lemma sub_nil e : sub e [] = [].
+  Proof. reflexivity. Qed.
+  Lemma here_nil e : here e [] = false.
+  Proof. reflexivity. Qed.
+
+  Lemma remove_nil_n : forall n v, jsize v <= n -> remove_members [] v = v.
+  Proof.
+    induction n as [|n IH]; intros v Hn; [destruct v; cbn in Hn; lia|].
+    destruct v as [| | | |l|m]; try reflexivity.
+    - rewrite remove_arr. f_equal. cbn in Hn. generalize 0%N.
+      induction l as [|x t IHl]; intro i; cbn [rm_items]; [reflexivity|].
+      cbn in Hn. rewrite sub_nil. rewrite (IH x) by lia. rewrite IHl by lia. reflexivity.
+    - rewrite remove_obj. f_equal. cbn in Hn.
+      induction m as [|[k x] t IHm]; cbn [rm_ms]; [reflexivity|].
+      cbn in Hn. rewrite here_nil, sub_nil. rewrite (IH x) by lia. rewrite IHm by lia. reflexivity.
+  Qed.
+  Lemma remove_nil v : remove_members [] v = v.
+  Proof. eapply remove_nil_n; eauto. Qed.
+
+  (* reported paths are never empty, and start with the step into the member / item *)
+  Lemma member_walk_heads cn ap sw k x a :
+    member_walk cn ap sw k x = Ok a -> exists Q : list path, paths_of a = map (pcons (PK k)) Q.
+  Proof.
+    unfold member_walk. destruct (action_of cn ap k x) as [| |c' ap' s'| |r]; intro H.
+    - inversion H. exists []. reflexivity.
+    - inversion H. exists [[]]. reflexivity.
+    - apply bind_ok in H. destruct H as [r [_ H]]. inversion H. exists (paths_of r). apply paths_tag.
+    - apply bind_ok in H. destruct H as [r [_ H]]. inversion H. exists (paths_of r). apply paths_tag.
+    - destruct r; cbn in H; discriminate.
+  Qed.
+
+  Lemma walk_nonempty c ap nest sw v os :
+    walk' c ap nest sw v = Ok os -> forall q, In q (paths_of os) -> q <> [].
+  Proof.
+    intros Hw q Hq. unfold paths_of in Hq. apply in_map_iff in Hq. destruct Hq as [[p s] [E Hin]]. cbn in E. subst p.
+    destruct v as [| | | |l|m]; try (cbn in Hw; inversion Hw; subst; contradiction).
+    - rewrite walk_arr in Hw.
+      destruct (items_of_in _ _ _ _ _ Hw Hin) as [j [x [a [_ [_ Hia]]]]].
+      apply in_tag_inv in Hia. destruct Hia as [o [_ E]]. inversion E. discriminate.
+    - rewrite walk_obj in Hw. apply bind_ok in Hw. destruct Hw as [cn [_ Hw]].
+      destruct (members_of_in _ _ _ _ Hw Hin) as [k [x [a [_ [Ha Hia]]]]].
+      destruct (member_walk_heads _ _ _ _ _ _ Ha) as [Q HQ].
+      assert (In q (paths_of a)) as Hq by (unfold paths_of; apply in_map_iff; exists (q, s); auto).
+      rewrite HQ in Hq. apply in_map_iff in Hq. destruct Hq as [t [E _]]. subst q. discriminate.
+  Qed.
+
+  (* later items / members do not interfere with an earlier step *)
+  Lemma items_later W l : forall i1 b j,
+    items_of W l i1 = Ok b -> (j < i1)%N -> sub (PI j) (paths_of b) = [].
+  Proof.
+    induction l as [|x t IH]; intros i1 b j H Hj.
+    - cbn in H. inversion H. reflexivity.
+    - cbn in H. apply bind_ok in H. destruct H as [a [_ H]].
+      apply bind_ok in H. destruct H as [b' [Hb H]]. inversion H; subst b.
+      rewrite paths_of_app, sub_app, paths_tag, sub_cons_other.
+      + cbn. apply (IH _ _ _ Hb). lia.
+      + intro E. inversion E. lia.
+  Qed.
+  Lemma members_later cn ap sw ms : forall b k,
+    members_of (member_walk cn ap sw) ms = Ok b -> ~ In k (map fst ms) ->
+    sub (PK k) (paths_of b) = [] /\ here (PK k) (paths_of b) = false.
+  Proof.
+    induction ms as [|[k0 x0] t IH]; intros b k H Hk.
+    - cbn in H. inversion H. split; reflexivity.
+    - cbn in H. apply bind_ok in H. destruct H as [a [Ha H]].
+      apply bind_ok in H. destruct H as [b' [Hb H]]. inversion H; subst b.
+      destruct (member_walk_heads _ _ _ _ _ _ Ha) as [Q HQ].
+      assert (PK k0 <> PK k) as Hne by (intro E; inversion E; subst; apply Hk; left; reflexivity).
+      destruct (IH _ _ Hb (fun Hin => Hk (or_intror Hin))) as [I1 I2].
+      rewrite paths_of_app, sub_app, here_app, HQ, I1, I2.
+      rewrite (sub_cons_other _ _ _ Hne), (here_cons_other _ _ _ Hne). split; reflexivity.
+  Qed.
+
+  (* well-formed documents: object keys are unique (as in any Go map) *)
+  Fixpoint wf (v : json) : Prop :=
+    match v with
+    | JArr l => fold_right (fun x acc => wf x /\ acc) True l
+    | JObj m => NoDup (map fst m) /\ fold_right (fun (kx : string * json) acc => wf (snd kx) /\ acc) True m
+    | _ => True
+    end.
+
+  Lemma strip_is_removal_n : forall n v, jsize v <= n -> wf v ->
+    forall c ap nest sw os, walk' c ap nest sw v = Ok os ->
+    strip loader cf c ap nest v = remove_members (paths_of os) v.
+  Proof.
+    induction n as [|n IH]; intros v Hn Hwf c ap nest sw os Hw; [destruct v; cbn in Hn; lia|].
+    destruct v as [| | | |l|m]; try reflexivity.
+    - (* arrays *)
+      rewrite walk_arr in Hw. rewrite strip_arr, remove_arr. f_equal.
+      cbn in Hn. cbn [wf] in Hwf.
+      enough (Hgen : forall i0 Q os,
+                items_of (walk' c ap nest sw) l i0 = Ok os ->
+                (forall j, (i0 <= j)%N -> sub (PI j) Q = []) ->
+                map (strip loader cf c ap nest) l = rm_items remove_members (Q ++ paths_of os) l i0).
+      { apply (Hgen 0%N [] os Hw). intros; reflexivity. }
+      clear os Hw.
+      induction l as [|x t IHl]; intros i0 Q os Hw HQ; [reflexivity|].
+      cbn in Hw. apply bind_ok in Hw. destruct Hw as [a [Ha Hw]].
+      apply bind_ok in Hw. destruct Hw as [b [Hb Hw]]. inversion Hw; subst os. clear Hw.
+      cbn in Hn. cbn in Hwf. destruct Hwf as [Hwx Hwt].
+      cbn [map rm_items]. f_equal.
+      + rewrite paths_of_app, !sub_app, paths_tag, sub_cons_same.
+        rewrite (HQ i0) by lia. rewrite (items_later _ _ _ _ i0 Hb) by lia.
+        rewrite app_nil_r. cbn. apply (IH x ltac:(lia) Hwx _ _ _ _ _ Ha).
+      + rewrite paths_of_app, app_assoc. apply IHl; [lia|exact Hwt|exact Hb|].
+        intros j Hj. rewrite sub_app, paths_tag, (HQ j) by lia. cbn.
+        apply sub_cons_other. intro E. inversion E. lia.
+    - (* objects *)
+      rewrite walk_obj in Hw. apply bind_ok in Hw. destruct Hw as [cn [Hc Hw]].
+      rewrite strip_obj, Hc, remove_obj. f_equal.
+      cbn in Hn. cbn [wf] in Hwf. destruct Hwf as [Hnd Hwf].
+      clear Hc.
+      enough (Hgen : forall Q os,
+                members_of (member_walk cn ap sw) m = Ok os ->
+                (forall k, In k (map fst m) -> sub (PK k) Q = [] /\ here (PK k) Q = false) ->
+                strip_ms cn ap m = rm_ms remove_members (Q ++ paths_of os) m).
+      { apply (Hgen [] os Hw). intros; split; reflexivity. }
+      clear os Hw.
+      induction m as [|[k x] t IHm]; intros Q os Hw HQ; [reflexivity|].
+      cbn in Hw. apply bind_ok in Hw. destruct Hw as [a [Ha Hw]].
+      apply bind_ok in Hw. destruct Hw as [b [Hb Hw]]. inversion Hw; subst os. clear Hw.
+      cbn in Hn. cbn in Hwf. destruct Hwf as [Hwx Hwt].
+      cbn in Hnd. inversion Hnd as [|? ? Hk Hnd']; subst.
+      destruct (HQ k (or_introl eq_refl)) as [Q1 Q2].
+      destruct (members_later _ _ _ _ _ _ Hb Hk) as [B1 B2].
+      assert (Htail : forall Q', (forall k', In k' (map fst t) ->
+                        sub (PK k') Q' = [] /\ here (PK k') Q' = false) ->
+                      strip_ms cn ap t = rm_ms remove_members (Q' ++ paths_of b) t).
+      { intros Q' HQ'. apply IHm; [lia|exact Hnd'|exact Hwt|exact Hb|exact HQ']. }
+      assert (HQa : forall k', In k' (map fst t) ->
+                sub (PK k') (Q ++ paths_of a) = [] /\ here (PK k') (Q ++ paths_of a) = false).
+      { intros k' Hk'. destruct (HQ k' (or_intror Hk')) as [I1 I2].
+        destruct (member_walk_heads _ _ _ _ _ _ Ha) as [Qa HQa].
+        assert (PK k <> PK k') as Hne by (intro E; inversion E; subst; contradiction).
+        rewrite sub_app, here_app, I1, I2, HQa.
+        rewrite (sub_cons_other _ _ _ Hne), (here_cons_other _ _ _ Hne). split; reflexivity. }
+      cbn [strip_ms rm_ms].
+      rewrite paths_of_app, !here_app, !sub_app, Q1, Q2, B1, B2, app_nil_r, orb_false_r. cbn [app orb].
+      rewrite (app_assoc Q (paths_of a) (paths_of b)).
+      unfold member_strip. unfold member_walk in Ha.
+      destruct (action_of cn ap k x) as [| |c' ap' s'| |r] eqn:E.
+      + inversion Ha; subst a. cbn. rewrite remove_nil. rewrite app_nil_r in *.
+        f_equal. apply Htail. intros k' Hk'. apply (HQ k' (or_intror Hk')).
+      + inversion Ha; subst a.
+        assert (Hh : here (PK k) (paths_of [([PK k], sw)]) = true)
+          by (unfold here, paths_of; cbn; rewrite String.eqb_refl; reflexivity).
+        rewrite Hh. apply Htail. exact HQa.
+      + apply bind_ok in Ha. destruct Ha as [r [Hr Ha]]. inversion Ha; subst a.
+        rewrite paths_tag, sub_cons_same.
+        rewrite (here_cons_nonempty _ _ _ (walk_nonempty _ _ _ _ _ _ Hr)).
+        f_equal; [|rewrite <- paths_tag; apply Htail; rewrite paths_tag; rewrite paths_tag in HQa; exact HQa].
+        f_equal. apply (IH x ltac:(lia) Hwx _ _ _ _ _ Hr).
+      + apply bind_ok in Ha. destruct Ha as [r [Hr Ha]]. inversion Ha; subst a.
+        rewrite paths_tag, sub_cons_same.
+        rewrite (here_cons_nonempty _ _ _ (walk_nonempty _ _ _ _ _ _ Hr)).
+        f_equal; [|rewrite <- paths_tag; apply Htail; rewrite paths_tag; rewrite paths_tag in HQa; exact HQa].
+        f_equal. apply (IH x ltac:(lia) Hwx _ _ _ _ _ Hr).
+      + destruct r; cbn in Ha; discriminate.
+  Qed.
+
+  Theorem strip_is_removal d os :
+    wf d -> undefined_occ loader cf d = Ok os ->
+    strip_undefined loader cf d = remove_members (paths_of os) d.
+  Proof. intros Hwf Hos. eapply strip_is_removal_n; eauto. Qed.
 
   (* ---- documents ---- *)
   Definition doc_member (under : bool) (d : json) (p : path) (cn : ctx) (k : string) (s : bool) : Prop :=
-    occurs under empty_ctx "" false false [] d p cn k s.
+    occurs under empty_ctx "" false false d p cn k s.
 
   Section Backend.
     Context {E DS R C : Type} (B : backend E DS R C).
@@ -382,7 +701,7 @@ Section Theory.
       intros H p cn k Ho. destruct (merklize_true_ok _ _ H) as [os [Hos Hex]].
       destruct (key_defined cn k) eqn:Hd; [reflexivity|].
       unfold undefined_occ in Hos.
-      pose proof (walk_rejects _ _ _ _ _ _ _ _ _ _ Ho Hd eq_refl _ Hos) as Hx.
+      pose proof (walk_rejects _ _ _ _ _ _ _ _ _ Ho Hd eq_refl _ Hos) as Hx.
       rewrite Hx in Hex. discriminate.
     Qed.
 
@@ -425,7 +744,7 @@ Section Theory.
       merklize true d = Err "invalid property".
     Proof.
       intros Ho Hd Hos Hu.
-      pose proof (walk_rejects _ _ _ _ _ _ _ _ _ _ Ho Hd eq_refl _ Hos) as Hx.
+      pose proof (walk_rejects _ _ _ _ _ _ _ _ _ Ho Hd eq_refl _ Hos) as Hx.
       revert Hu.
       unfold merklize_doc, proc_normalize, proc_compact, expand, new_jsonld_options, safe_rejects. cbn.
       destruct (b_expand B d) as [e| | |]; cbn; try discriminate.
@@ -438,13 +757,13 @@ Section Theory.
        behaves exactly like unsafe mode *)
     Theorem modes_agree_when_defined d os :
       undefined_occ loader cf d = Ok os ->
-      (forall p cn k s, reach empty_ctx "" false false [] d p cn k s -> key_defined cn k = true) ->
+      (forall p cn k s, reach empty_ctx "" false false d p cn k s -> key_defined cn k = true) ->
       merklize true d = merklize false d.
     Proof.
       intros Hos Hall.
       assert (os = []) as ->.
       { destruct os as [|[p s] t]; [reflexivity|].
-        destruct (walk_sound _ _ _ _ _ _ _ p s Hos (or_introl eq_refl)) as [cn [k [Hr Hd]]].
+        destruct (walk_sound _ _ _ _ _ _ p s Hos (or_introl eq_refl)) as [cn [k [Hr Hd]]].
         rewrite (Hall _ _ _ _ Hr) in Hd. discriminate. }
       unfold merklize_doc, proc_normalize, proc_compact, expand, new_jsonld_options, safe_rejects. cbn.
       rewrite Hos. reflexivity.
@@ -472,6 +791,18 @@ Section Theory.
       intros Hi d.
       unfold merklize_doc, proc_normalize, proc_compact, expand, new_jsonld_options. cbn.
       rewrite <- (Hi d). reflexivity.
+    Qed.
+
+    (* ... and the stripped document is, context-free, the document with exactly the
+       members deleted that the scan reports (which are exactly the undefined members
+       expansion reaches: walk_sound / walk_complete) *)
+    Theorem unsafe_is_removal :
+      expand_ignores_undefined ->
+      forall d os, wf d -> undefined_occ loader cf d = Ok os ->
+      merklize false d = merklize false (remove_members (map fst os) d).
+    Proof.
+      intros Hi d os Hwf Hos. rewrite (unsafe_is_stripped Hi d).
+      rewrite (strip_is_removal d os Hwf Hos). reflexivity.
     Qed.
 
     (* ---- option plumbing ---- *)
@@ -591,7 +922,7 @@ Module Examples.
     eexists. eexists. split; [|split].
     - unfold doc_member, bad_nested, doc.
       eapply occ_walk with (k := "child"); [vm_compute; reflexivity|right; right; left; reflexivity|vm_compute; reflexivity|].
-      eapply occ_item with (i := 0); [reflexivity|].
+      eapply occ_item with (i := 0%nat); [reflexivity|].
       eapply occ_here; [vm_compute; reflexivity|right; left; reflexivity|discriminate].
     - vm_compute. reflexivity.
     - vm_compute. reflexivity.
